@@ -557,6 +557,7 @@ class Debian822(MutableMapping):
         """
         if data:
             text = None
+            paragraph = {}
             if isinstance(data, Mapping):
                 paragraph = {k.lower(): v for k, v in data.items()}
 
